@@ -5,6 +5,7 @@
 use vstd::prelude::*;
 use std::borrow::Cow;
 use std::ops::Deref;
+use std::io::{Read, Seek};
 
 verus! {
 
@@ -20,7 +21,20 @@ pub mod vba { pub struct VbaError; }
 #[verifier::external_type_specification] #[verifier::external_body] pub struct ExParseFloatError(std::num::ParseFloatError);
 #[verifier::external_type_specification] #[verifier::external_body] pub struct ExParseIntError(std::num::ParseIntError);
 
+#[verifier::external_trait_specification] pub trait ExRead { type ExternalTraitSpecificationFor: std::io::Read; }
+#[verifier::external_trait_specification] pub trait ExSeek { type ExternalTraitSpecificationFor: std::io::Seek; }
+
 //@@ item src/xlsx/mod.rs enum XlsxError
+//@@ item src/lib.rs struct Dimensions keep_attrs
+//@@ item src/lib.rs enum SheetType
+//@@ item src/lib.rs enum SheetVisible
+//@@ item src/lib.rs struct Sheet
+//@@ item src/lib.rs struct Metadata
+//@@ item src/lib.rs enum HeaderRow keep_attrs
+//@@ item src/formats.rs enum CellFormat
+//@@ item src/xlsx/mod.rs type Tables
+//@@ item src/xlsx/mod.rs struct Xlsx cfg_off=picture
+//@@ item src/xlsx/mod.rs struct XlsxOptions
 // what `from_err!(quick_xml::Error, XlsxError, Xml)` (macro of src/utils.rs) expands to
 impl From<quick_xml::Error> for XlsxError { fn from(e: quick_xml::Error) -> (r: XlsxError) { XlsxError::Xml(e) } }
 impl vstd::std_specs::convert::FromSpecImpl<quick_xml::Error> for XlsxError {
@@ -405,8 +419,9 @@ proof fn lemma_rst_plain_rte(ev: Seq<Ev>, i: int, s: RstSt, closing: Seq<u8>)
             good ==> rst_scan(ev, xml.pos() as int, st, cl) == tot,
             good ==> xml.pos() <= tot.end < ev.len() && ev[tot.end].kind is End && ev[tot.end].name == cl,
             good ==> (is_phonetic_text == (st.lvl is Ph)),
-            good ==> (st.in_t ==> st.lvl is Ph),
+            good ==> (st.in_t ==> st.lvl is Ph && local_of(st.tname) =~= n_t() && !(local_of(st.tname) =~= local_of(cl))),
             good ==> (st.lvl is R ==> st.rich),
+            good ==> (!st.rich ==> st.acc =~= Seq::<char>::empty()),
             good ==> st.plain is None,
             good ==> (rich_buffer is Some) == st.rich,
             good ==> (st.rich ==> rich_buffer->Some_0@ == st.acc),
@@ -420,15 +435,25 @@ proof fn lemma_rst_plain_rte(ev: Seq<Ev>, i: int, s: RstSt, closing: Seq<u8>)
                 assert(pos < ev.len());
                 assert(!(ev[pos].kind is CData));
                 assert(!(stp is Bad));
-                if stp is Next { st = stp->Next_0; lemma_rst_end(ev, pos + 1, st, cl); }
+                if stp is Next {
+                    st = stp->Next_0; lemma_rst_end(ev, pos + 1, st, cl);
+                    assert(st.in_t ==> local_of(st.tname) =~= n_t() && !(local_of(st.tname) =~= local_of(cl)));
+                    assert(!st.rich ==> st.acc =~= Seq::<char>::empty());
+                    assert(st.lvl is R ==> st.rich);
+                }
             }
         }
+//@@ before /if rich_buffer\.is_none\(\)/
+                proof {
+                    assert(ev[pos].kind is Start && e.ev() == ev[pos] && e.ev().local() =~= n_r());
+                    if good { assert(!st0.in_t && st0.skip == 0); assert(st.rich); }
+                }
 //@@ loop 1
                     invariant_except_break
                         good ==> st == (RstSt { tbuf: value@, ..st1 }),
                     invariant
                         ev == old(xml).events(), p0 == old(xml).pos(), cl == __arg1.0@,
-                        xml.events() == ev, xml.pos() >= p0, cl == closing@,
+                        xml.events() == ev, xml.pos() >= p0, cl == closing@, xml.pos() > pos, pos < ev.len(),
                         tot == rst_item(ev, p0, cl),
                         good == (tot.ok && unprefixed(cl) && no_cdata(ev, p0, tot.end)),
                         good ==> e.ev().name == st1.tname,
@@ -470,5 +495,154 @@ proof fn lemma_rst_plain_rte(ev: Seq<Ev>, i: int, s: RstSt, closing: Seq<u8>)
                     }
 //@@ end
 
+
+// =====================================================================================================================
+// A-zip: the zip container.  TRUSTED: `ZipArchive` is a stand-in for zip::read::ZipArchive; `xml_reader` (src/xlsx/mod.rs, a
+// case-insensitive `file_names().find(..)` + `by_name` + reader configuration) is not under contract: the events of the reader it
+// returns are a function of the archive and the part name only.
+// =====================================================================================================================
+#[verifier::external_body]
+#[verifier::reject_recursive_types(RS)]
+pub struct ZipArchive<RS> { _p: core::marker::PhantomData<RS> }
+/// events of the XML part `path` of the archive; None: the archive has no such part
+pub uninterp spec fn part_events<RS>(zip: ZipArchive<RS>, path: Seq<char>) -> Option<Seq<Ev>>;
+/// the part can be opened (no zip-level error)
+pub uninterp spec fn part_readable<RS>(zip: ZipArchive<RS>, path: Seq<char>) -> bool;
+// TRUSTED: A-zip, A-xml
+#[verifier::external_body]
+fn xml_reader<'a, RS: Read + Seek>(zip: &'a mut ZipArchive<RS>, path: &str) -> (r: Option<Result<XlReader<'a>, XlsxError>>)
+    ensures
+        r is None <==> part_events(*old(zip), path@) is None,
+        r is Some && part_readable(*old(zip), path@) ==> r->Some_0 is Ok,
+        r is Some && r->Some_0 is Ok ==> (r->Some_0->Ok_0).events() == part_events(*old(zip), path@)->Some_0 && (r->Some_0->Ok_0).pos() == 0,
+{ unimplemented!() }
+
+// =====================================================================================================================
+// C19 -- the shared string table.  ECMA-376 Part 1, 18.4.9 sst (CT_Sst): sequence of si* , extLst?.  "A cell of type s holds
+// the zero-based index of its string item in the table": the i-th `si` child is item i, whatever its content.
+// =====================================================================================================================
+pub ghost struct SstSt {
+    pub root: bool,                      // the `sst` start tag has been met
+    pub skip: nat,                       // > 0: inside an extension element (extLst) at this depth
+    pub items: Seq<Option<Seq<char>>>,   // text of the string items met so far, in document order (None: item without text)
+}
+pub ghost struct SstRes { pub ok: bool, pub items: Seq<Option<Seq<char>>>, pub end: int }
+pub open spec fn sst_bad(i: int) -> SstRes { SstRes { ok: false, items: Seq::empty(), end: i } }
+/// the sharedStrings part from event i on; `strict`: additionally require every item to have a text
+pub open spec fn sst_scan(ev: Seq<Ev>, i: int, s: SstSt, strict: bool) -> SstRes
+    decreases ev.len() - i
+{
+    if i < 0 || i >= ev.len() { sst_bad(i) }
+    else {
+        let e = ev[i];
+        if e.kind is Error { sst_bad(i) }
+        else if !s.root {
+            // prolog: XML declaration, comments, white space; then the root element
+            if e.kind is Start { if e.local() =~= n_sst() { sst_scan(ev, i + 1, SstSt { root: true, ..s }, strict) } else { sst_bad(i) } }
+            else if e.kind is End { sst_bad(i) }
+            else { sst_scan(ev, i + 1, s, strict) }
+        } else if s.skip > 0 {
+            if e.is_tag() && (e.local() =~= n_si() || e.local() =~= n_sst()) { sst_bad(i) }
+            else if e.kind is Start { sst_scan(ev, i + 1, SstSt { skip: s.skip + 1, ..s }, strict) }
+            else if e.kind is End { sst_scan(ev, i + 1, SstSt { skip: (s.skip - 1) as nat, ..s }, strict) }
+            else { sst_scan(ev, i + 1, s, strict) }
+        } else if e.kind is Start {
+            if e.local() =~= n_si() {
+                let it = rst_item(ev, i + 1, e.name);
+                if it.ok && it.end > i && !(strict && it.text is None) {
+                    sst_scan(ev, it.end + 1, SstSt { items: s.items.push(it.text), ..s }, strict)
+                } else { sst_bad(i) }
+            }
+            else if e.local() =~= n_sst() { sst_bad(i) }
+            else { sst_scan(ev, i + 1, SstSt { skip: 1, ..s }, strict) }
+        } else if e.kind is End {
+            if e.local() =~= n_sst() { SstRes { ok: true, items: s.items, end: i } } else { sst_bad(i) }
+        } else {
+            sst_scan(ev, i + 1, s, strict)
+        }
+    }
+}
+pub open spec fn sst_part(ev: Seq<Ev>, strict: bool) -> SstRes { sst_scan(ev, 0, SstSt { root: false, skip: 0, items: Seq::empty() }, strict) }
+/// every `si` start tag is written without namespace prefix
+pub open spec fn si_unprefixed(ev: Seq<Ev>) -> bool {
+    forall|k: int| 0 <= k < ev.len() && (#[trigger] ev[k]).kind is Start && ev[k].local() =~= n_si() ==> unprefixed(ev[k].name)
+}
+pub open spec fn strs(v: Seq<String>) -> Seq<Seq<char>> { v.map_values(|s: String| s@) }
+pub open spec fn text_or_empty(o: Option<Seq<char>>) -> Seq<char> { match o { Some(t) => t, None => Seq::empty() } }
+pub open spec fn texts(items: Seq<Option<Seq<char>>>) -> Seq<Seq<char>> { items.map_values(|o: Option<Seq<char>>| text_or_empty(o)) }
+pub open spec fn sst_path() -> Seq<char> { "xl/sharedStrings.xml"@ }
+
+proof fn lemma_sst_end(ev: Seq<Ev>, i: int, s: SstSt, strict: bool)
+    requires 0 <= i, sst_scan(ev, i, s, strict).ok,
+    ensures i <= sst_scan(ev, i, s, strict).end < ev.len(),
+    decreases ev.len() - i,
+{
+    if i < ev.len() {
+        let e = ev[i];
+        if s.root && s.skip == 0 && e.kind is Start && e.local() =~= n_si() {
+            let it = rst_item(ev, i + 1, e.name);
+            lemma_sst_end(ev, it.end + 1, SstSt { items: s.items.push(it.text), ..s }, strict);
+        } else if !(e.kind is End && s.root && s.skip == 0) {
+            // every other continuing case moves to i + 1 with some state
+            if !s.root { if e.kind is Start { lemma_sst_end(ev, i + 1, SstSt { root: true, ..s }, strict); } else { lemma_sst_end(ev, i + 1, s, strict); } }
+            else if s.skip > 0 {
+                if e.kind is Start { lemma_sst_end(ev, i + 1, SstSt { skip: s.skip + 1, ..s }, strict); }
+                else if e.kind is End { lemma_sst_end(ev, i + 1, SstSt { skip: (s.skip - 1) as nat, ..s }, strict); }
+                else { lemma_sst_end(ev, i + 1, s, strict); }
+            } else if e.kind is Start { lemma_sst_end(ev, i + 1, SstSt { skip: 1, ..s }, strict); }
+            else { lemma_sst_end(ev, i + 1, s, strict); }
+        }
+    }
+}
+
+//@@ impl src/xlsx/mod.rs Xlsx
+//@@ fn src/xlsx/mod.rs Xlsx::read_shared_strings props=C19 ret=r
+//@@ sig
+    ensures
+        //# C19.sst_absent_part
+        part_events(old(self).zip, sst_path()) is None ==> r is Ok && final(self).strings@ == old(self).strings@,
+        //# C19.sst_items_in_order
+        ({ let evs = part_events(old(self).zip, sst_path());
+           evs is Some && part_readable(old(self).zip, sst_path()) && sst_part(evs->Some_0, true).ok
+             && si_unprefixed(evs->Some_0) && no_cdata(evs->Some_0, 0, sst_part(evs->Some_0, true).end) ==>
+               r is Ok && strs(final(self).strings@) =~= strs(old(self).strings@) + texts(sst_part(evs->Some_0, true).items) }),
+        //# C19.sst_index_alignment
+        ({ let evs = part_events(old(self).zip, sst_path());
+           evs is Some && part_readable(old(self).zip, sst_path()) && sst_part(evs->Some_0, false).ok
+             && si_unprefixed(evs->Some_0) && no_cdata(evs->Some_0, 0, sst_part(evs->Some_0, false).end) ==>
+               r is Ok && strs(final(self).strings@) =~= strs(old(self).strings@) + texts(sst_part(evs->Some_0, false).items) }),
+        //# C01,C19.sst_ns_prefix
+        ({ let evs = part_events(old(self).zip, sst_path());
+           evs is Some && part_readable(old(self).zip, sst_path()) && sst_part(evs->Some_0, true).ok
+             && no_cdata(evs->Some_0, 0, sst_part(evs->Some_0, true).end) ==>
+               r is Ok && strs(final(self).strings@) =~= strs(old(self).strings@) + texts(sst_part(evs->Some_0, true).items) }),
+        //# C19.sst_cdata_text
+        ({ let evs = part_events(old(self).zip, sst_path());
+           evs is Some && part_readable(old(self).zip, sst_path()) && sst_part(evs->Some_0, true).ok
+             && si_unprefixed(evs->Some_0) ==>
+               r is Ok && strs(final(self).strings@) =~= strs(old(self).strings@) + texts(sst_part(evs->Some_0, true).items) }),
+//@@ before /let mut buf = /
+        let ghost ev = xml.events();
+        let ghost tot = sst_part(ev, true);
+        let ghost good = tot.ok && si_unprefixed(ev) && no_cdata(ev, 0, tot.end);
+        let ghost mut st = SstSt { root: false, skip: 0, items: Seq::empty() };
+        let ghost s0 = self.strings@;
+        proof {
+            axiom_bytelits(); lemma_names_distinct();
+            if tot.ok { lemma_sst_end(ev, 0, st, true); }
+            assert(strs(s0) + texts(st.items) =~= strs(s0));
+        }
+//@@ loop 0
+            invariant
+                ev == xml.events(), tot == sst_part(ev, true),
+                good == (tot.ok && si_unprefixed(ev) && no_cdata(ev, 0, tot.end)),
+                b"si"@ == n_si(), b"sst"@ == n_sst(), n_si() != n_sst(),
+                good ==> sst_scan(ev, xml.pos() as int, st, true) == tot,
+                good ==> xml.pos() <= tot.end < ev.len(),
+                good ==> strs(self.strings@) =~= strs(s0) + texts(st.items),
+                !good ==> true,
+            decreases xml.left(),
+//@@ end
+//@@ endimpl
 } // verus!
 fn main() {}
